@@ -108,6 +108,9 @@ def position_payload(e):
     return None
 
 
+_TYRANGE = {"u8": (0, 255), "u16": (0, 65535), "u32": (0, 2**32 - 1), "u64": (0, 2**64 - 1), "usize": (0, 2**64 - 1),
+            "i8": (-128, 127), "i16": (-32768, 32767), "i32": (-2**31, 2**31 - 1), "i64": (-2**63, 2**63 - 1), "isize": (-2**63, 2**63 - 1)}
+
 ASCII_CLASS = {"is_ascii_digit": (48, 57), "is_ascii_lowercase": (97, 122), "is_ascii_uppercase": (65, 90), "is_ascii_alphabetic": (65, 122), "is_ascii_alphanumeric": (48, 122), "is_ascii_hexdigit": (48, 102), "is_ascii_whitespace": (9, 32), "is_ascii_punctuation": (33, 126), "is_ascii_graphic": (33, 126), "is_ascii": (0, 127)}
 
 
@@ -226,6 +229,19 @@ class Facts:
             elif op == "Ge":
                 self.ge(a, b, 0)
             return
+        if e[0] == "call" and isinstance(v, bool) and e[1].split("::")[-1] == "contains" and len(e[3]) == 2 and ("Range" in e[1] or "Range" in e[2]):
+            rng = self.expand(sym.norm(e[3][0]))
+            item = sym.norm(e[3][1])
+            bounds = None
+            if rng[0] == "aggr" and rng[2] and rng[2].split("::")[-1] in ("Range", "RangeInclusive") and len(rng[4]) >= 2 and rng[4][0][0] == "int" and rng[4][1][0] == "int":
+                bounds = (rng[4][0][1], rng[4][1][1] - (0 if rng[2].endswith("RangeInclusive") else 1))
+            elif rng[0] == "call" and rng[1].endswith("RangeInclusive::new") and len(rng[3]) == 2 and rng[3][0][0] == "int" and rng[3][1][0] == "int":
+                bounds = (rng[3][0][1], rng[3][1][1])
+            if bounds and v:
+                t, k = lin(item)
+                self.add(t, ZERO, bounds[0] - k, "range membership")
+                self.add(ZERO, t, k - bounds[1])
+            return
         if e[0] == "call" and isinstance(v, bool) and e[3]:
             nm = e[1].split("::")[-1]
             subj = sym.norm(e[3][0])
@@ -311,6 +327,43 @@ class Facts:
         tb, kb = lin(b)
         lo = self.lower(ta, tb)
         return lo is not None and lo >= kb - ka + k
+
+    def range(self, e, depth=0):
+        """interval of an arithmetic expression from the known bounds of its atoms: (lo, hi), None = unbounded"""
+        e = strip_widen(e)
+        if e[0] == "int":
+            return e[1], e[1]
+        if depth < 8:
+            if e[0] == "cast" and e[1] == "IntToInt":
+                lo, hi = self.range(e[2], depth + 1)
+                rng = _TYRANGE.get(e[3])
+                if rng and lo is not None and hi is not None and rng[0] <= lo and hi <= rng[1]:
+                    return lo, hi
+                return (rng if rng else (None, None))
+            if e[0] == "unop" and e[1] == "Neg":
+                lo, hi = self.range(e[2], depth + 1)
+                return (None if hi is None else -hi), (None if lo is None else -lo)
+            core = e[1] if e[0] == "binop" else (e[1][1].replace("WithOverflow", "") if e[0] == "field" and e[2] == "0" and e[1][0] == "binop" else None)
+            ops = (e[2], e[3]) if e[0] == "binop" else ((e[1][2], e[1][3]) if core else None)
+            if core in ("Add", "Sub", "Mul", "Div", "Rem", "BitAnd", "Shr") and ops:
+                (al, ah), (bl, bh) = self.range(ops[0], depth + 1), self.range(ops[1], depth + 1)
+                if None not in (al, ah, bl, bh):
+                    if core == "Add":
+                        return al + bl, ah + bh
+                    if core == "Sub":
+                        return al - bh, ah - bl
+                    if core == "Mul":
+                        c = [al * bl, al * bh, ah * bl, ah * bh]
+                        return min(c), max(c)
+                    if core == "Div" and bl == bh and bl > 0 and al >= 0:
+                        return al // bl, ah // bl
+                    if core == "Rem" and bl == bh and bl > 0 and al >= 0:
+                        return 0, min(ah, bl - 1)
+                    if core == "BitAnd" and al >= 0 and bl >= 0:
+                        return 0, min(ah, bh)
+                    if core == "Shr" and bl == bh and bl >= 0 and al >= 0:
+                        return al >> bl, ah >> bl
+        return self.lower_bound(e), self.upper(e)
 
     def upper(self, a):
         """least known upper bound of expression a (or None)"""
